@@ -150,6 +150,8 @@ class C13a(Monitor):
         f = s.state("Filtration")
         if f.startswith(SWIM_NEVER_PREFIX):
             r.report("C13", f"swim-on-in:{f.split('_')[0]}", f"swim pump on while filtration is {f} (swim {s.state('Swim') if _alive(r,'Swim') else 'DEAD'})")
+        elif f.startswith("wintering") and _alive(r, "Swim") and s.state("Swim") in ("timed", "continuous"):
+            r.report("C13", "swim-user-request-in-wintering", f"a user swim request was accepted while filtration is {f}: swim is {s.state('Swim')}, pump on")
 
 
 class C15a(Monitor):
@@ -186,7 +188,10 @@ class C17a(Monitor):
             r.report("C17", "pump-on-in-wintering-waiting", "circulation pump on in wintering_waiting")
         if _alive(r, "Swim") and _alive(r, "Filtration") and s.state("Filtration").startswith("wintering"):
             if s.state("Swim") != "wintering_stir" and s.pin_on("swim"):
-                r.report("C17", f"swim-on-outside-stir:{s.state('Swim')}", f"swim pump on in wintering while swim is {s.state('Swim')}")
+                if s.state("Swim") in ("timed", "continuous"):
+                    r.report("C17", "swim-user-request-in-wintering", f"swim pump on outside the wintering stir phase: a user request was accepted, swim is {s.state('Swim')}")
+                else:
+                    r.report("C17", f"swim-on-outside-stir:{s.state('Swim')}", f"swim pump on in wintering while swim is {s.state('Swim')}")
 
 
 class C08(Monitor):
